@@ -199,21 +199,21 @@ func (r *Report) Finish(verifDir string, findings []Finding) int {
 	}
 	sort.Strings(fns)
 	cov := map[string]any{
-		"obligations":       len(r.Obls),
-		"discharged":        disch,
-		"violated_unlisted": viol,
-		"known_findings":    knownN,
-		"undecided":         undec,
-		"explanation":       r.Explanation,
-		"rules":             ruleTexts,
+		"obligations":        len(r.Obls),
+		"discharged":         disch,
+		"violated_unlisted":  viol,
+		"known_findings":     knownN,
+		"undecided":          undec,
+		"explanation":        r.Explanation,
+		"rules":              ruleTexts,
 		"instances_per_rule": perRuleOut,
-		"not_decided":       r.NotDecided,
+		"not_decided":        r.NotDecided,
 		"functions_analysed": fns,
-		"counters":          r.Counters,
-		"samples":           samples,
-		"exhaustive":        r.Exhaustive,
-		"checker_cmd":       fmt.Sprintf("/verif/check.sh %s %s", r.Property, r.Tier),
-		"notes":             r.Notes,
+		"counters":           r.Counters,
+		"samples":            samples,
+		"exhaustive":         r.Exhaustive,
+		"checker_cmd":        fmt.Sprintf("/verif/check.sh %s %s", r.Property, r.Tier),
+		"notes":              r.Notes,
 	}
 	for k, v := range r.Extra {
 		cov[k] = v
